@@ -44,7 +44,13 @@ def c15():
     return [reader.ReaderLocs()]
 
 
+def c09():
+    from harness import text
+    return [text.ClassicText(), text.ModernText()]
+
+
 REGISTRY = {
+    'C09': dict(harnesses=c09, run=_runner('C09', c09)),
     'C15': dict(harnesses=c15, run=_runner('C15', c15)),
     'C20': dict(harnesses=c20, run=_runner('C20', c20)),
     'C07': dict(harnesses=c07, run=_runner('C07', c07)),
